@@ -150,6 +150,7 @@ func vfRunC07Case(env *vfEnv, part *vfPart, caseNo int) {
 		if os.Getenv("VERIF_E4_DEBUG") != "" {
 			fmt.Printf("E4DEBUG restored:\n%s", restored.canon())
 		}
+		ph.logRecs = vfReadLogRecords(preImage)
 		fs := vfCompareRestart(ph, before, exps, restored, byte(round), stats)
 		// holds the loader could not re-admit because their key is held by more
 		// holders than its smallest Count admits stay in the log and may come back
